@@ -83,6 +83,13 @@ FORMAT_STRINGS = {
     'perl-brace-format': ['{', '{}', '{1}', '{a b}', '{a}}', '{é}', '{_}', '{a' + 'b' * 5000 + '}', '{' * 5000, '{a}{', 'x{'],
 }
 
+VALID_FORMATS = {
+    'c-format': [['%d', '%s', '%d'], ['%1$s', '%2$d', '%3$d'], ['%ld', '%d', '%u']],
+    'python-format': [['%(a)s', '%(b)d', '%(c)d'], ['%s', '%d', '%d'], ['%(n)d', '%(m)d', '%(k)s']],
+    'python-brace-format': [['{a}', '{b:d}', '{c:d}'], ['{0}', '{1:d}', '{2:d}'], ['{n:d}', '{m:d}', '{k}']],
+    'perl-brace-format': [['{a}', '{b}', '{c}']],
+}
+
 
 def gen_files(ctx, d):
     rng = ctx.rng
@@ -130,6 +137,22 @@ def gen_files(ctx, d):
                     cat['entries'].append({'msgid': v, 'msgid_plural': v + ' s', 'msgstr_plural': [v, 'x', v + v], 'flags': [flag, 'range:0..3']})
                 files.append((w(d, 'f%d.%s' % (i, 'pot' if shape == 0 and i % 2 else 'po'), pogen.render(cat)), 'component:' + flag))
                 i += 1
+    # valid multi-argument strings with 1..3 arguments dropped from one translation (the tolerated-omission and the argument-comparison paths)
+    for flag, vs in VALID_FORMATS.items():
+        for parts in vs:
+            full = ' '.join(parts)
+            for drop in (1, 2, 3):
+                short = ' '.join(parts[drop:]) or 'x'
+                cat = pogen.base_catalog()
+                cat['entries'].append({'msgid': full, 'msgstr': short, 'flags': [flag]})
+                cat['entries'].append({'msgid': 'r ' + short, 'msgstr': 'r ' + full, 'flags': [flag]})
+                for form in range(3):
+                    forms = [full, full, full]
+                    forms[form] = short
+                    cat['entries'].append({'msgid': '%d %d ' % (drop, form) + full, 'msgid_plural': '%d %d s ' % (drop, form) + full, 'msgstr_plural': forms,
+                                           'flags': [flag] + (['range:1..1'] if form == 2 and drop == 2 else [])})
+                files.append((w(d, 'va%d.po' % i, pogen.render(cat)), 'component:' + flag + ':dropped-arguments'))
+                i += 1
     # a lone surrogate reaching the XML check (D26, fixed: s.encode('UTF-8') in lib/xml.py raised UnicodeEncodeError) -- found by the RaiseSites table
     for cs in ['raw_unicode_escape', 'unicode_escape', 'utf-16', 'utf-8', 'utf-7']:
         for mid, mstr in [('a\\ud800', 'b'), ('<a>x</a>', '<a>\\udfff</a>'), ('\\ud800\\udc00', '\\udc00\\ud800'), ('+2AA-', '+2AA-')]:
@@ -138,6 +161,16 @@ def gen_files(ctx, d):
                         % (cs, com, mid, '' if ext == 'pot' else mstr))
                 files.append((w(d, 'xs%d.%s' % (i, ext), text), 'component:xml-surrogate'))
                 i += 1
+    # every supported charset (the tool's own codecs and the iconv-backed ones included) with languages that have a character list:
+    # the unrepresentable-characters check encodes the list, then each character alone
+    from lib import encodings as E
+    css = sorted(set(E.get_portable_encodings(python=False)) | {x.upper() for x in getattr(E, '_extra_encodings', ())})
+    langs = ['el', 'ja', 'pl', 'ru', 'zh_TW', 'vi', 'ka', 'tg', 'de', 'he', 'ko', 'th']
+    for cs in css:
+        for lang in (langs if not ctx.quick() else rng.sample(langs, 4) + (['el', 'ja'] if cs.upper() in ('EUC-TW', 'KOI8-T', 'VISCII', 'KOI8-RU', 'GEORGIAN-PS') else [])):
+            text = 'msgid ""\nmsgstr ""\n"Content-Type: text/plain; charset=%s\\n"\n"Language: %s\\n"\n\nmsgid "a"\nmsgstr "b"\n' % (cs, lang)
+            files.append((w(d, 'lc%d.po' % i, text), 'language-x-charset'))
+            i += 1
     # flags and ranges
     for fl in ['range:' + '9' * 5000 + '..' + '9' * 5001, 'range:1..', 'range:..', 'range: 1..2 ', 'range:2..1', 'range:1..2, range:1..3', ', ,', 'fuzzy, fuzzy', '\x1b', 'c-format, no-c-format']:
         cat = pogen.base_catalog()
